@@ -12,21 +12,30 @@ import pandas as pd
 from common import Ctx, driver_json
 import core_lib as cl
 import c18 as trig
+import c05_real
 
 PROPERTY = "C05"
-LEAN_MODULES = ["Proofs.C05", "Proofs.C05.Refresh", "Proofs.C05.Hooks"]
+LEAN_MODULES = ["Proofs.C05", "Proofs.C05.Refresh", "Proofs.C05.Hooks", "Proofs.C05.Finalize", "Proofs.C05.BarIndex", "Proofs.C05.Clock", "Proofs.C05.Strict", "Proofs.C05.Prefix"]
 DRIVERS = ["driver_core"]
 RULE = ("random runs: 1..3 markets (minutely, hourly, hourly option book with 2..80 rows per timestamp — sometimes more rows than the longest market has "
         "minutes —, with gaps, starting late / ending early), bar interval 1/2/3/5/7/15/45/60 min (string forms "
         "'1min', 'min', '5min', '1h', 'h'), 1..400 bars, price frame covering / not covering the data, 0..3 time triggers, scripted strategy "
         "whose hooks (initialize / before_bar / trigger actions / open callbacks / on_bar / after_bar / notify) run statement lists: accepted and "
-        "refused operations (from inside notify() too: answers to delivered actions, up to three levels deep, also on the last bar), "
+        "refused operations (from inside notify() too: answers to delivered actions, up to three levels deep, also on the last bar; from finalize() "
+        "after the last bar, with answers from notify()), "
         "strategy.triggers.append of a new trigger / remove of an installed one (from trigger actions while the loop iterates the list, and "
         "between loops), raise of HookError / HookRuntimeError / DemeterError at a random place of a random hook on a random bar (first, last, "
         "middle), and markets whose update() records actions; after a run (failed or not) the same Actuator and strategy object run again; "
         "fixed cases: minutely market + 2 h x 80-row book, 2-3 markets with a write only on a later-registered one, answers from notify(), a raise "
         "in each of the seven hooks x bar {0, 2, 3, 5} x class, self-removing / installing / earlier-removing trigger actions; a run that a hook "
         "ended is judged against a fresh run of the same strategy without the raise (calls, account history, actions: prefixes; second run: equal); "
+        "markets (probe markets at random, the real UniLpMarket always) whose set_market_status looks the row up unguarded — KeyError on a bar "
+        "without a row, as five of the six real classes do (observed on the real objects and compared with the flags the model reads from the source); "
+        "real-market stream (harness/c05_real.py, oracle only): UniLpMarket(weth/osqth) + SqueethMarket under a real Actuator with scripted calls from "
+        "before_bar/on_bar/after_bar/finalize — accepted, refused, and failing with another exception class (KeyError from a vault key / position "
+        "that does not exist), all caught by the strategy —, and UniLpMarket + DeribitOptionMarket with an option expiring inside the run, with and "
+        "without rows for the expiry hour: every returning call has its record(s), stamped with its bar, delivered once in that bar; expiry records "
+        "in the bar of the expiry; "
         "bucket = (interval class, market mix, bars class, phases with operations, second refresh seen, closed-market rejection seen, outcome, "
         "hook that raised, list changes, second run)")
 TRUSTED = ["pandas resample/loc internals are exercised, not modelled: the model's resampled index and 'first row of the bin' rule are compared with what pandas produced on every run",
@@ -90,15 +99,15 @@ def gen_case(rng, big=False):
         if kind == "hourly" and rng.random() < 0.5:
             # an option book: several rows per timestamp; sometimes more rows than the longest market has timestamps
             mk["kind"], mk["rows"] = "book", rng.choice((2, 3, 7, max(2, n_raw // max(1, len(times)) + 1), 80))
+        if rng.random() < 0.25:
+            mk["strict"] = True        # set_market_status looks the row up unguarded, as every real class but DeribitOptionMarket does: a bar
+                                       # without a row ends the run with KeyError instead of finding the market closed
         markets.append(mk)
     if istr == "1min" and rng.random() < 0.35:       # a real UniLpMarket in the mix
-        cand = markets + [{"kind": "uni", "times": list(base), "open": rng.random() < 0.3}]
-        longest = max(cand, key=lambda m: len(m["times"]))
-        # UniLpMarket.set_market_status raises KeyError on a bar without a row (only Deribit tolerates that): keep it only if its
-        # frame has a row for every bar of the run
-        if set(longest["times"]) <= set(base):
-            markets = cand
-            nm += 1
+        # UniLpMarket.set_market_status raises KeyError on a bar without a row (only Deribit tolerates that): strict
+        times = list(base) if rng.random() < 0.7 else [t for t in base if rng.random() < 0.9] or [base[0]]
+        markets = markets + [{"kind": "uni", "times": times, "open": rng.random() < 0.3, "strict": True}]
+        nm += 1
     lo = min(m["times"][0] for m in markets)
     hi = max(m["times"][-1] for m in markets)
     r = rng.random()
@@ -160,6 +169,16 @@ def gen_case(rng, big=False):
                 cnt[0] += 1
                 sc["upd"].append([r_, m, [f"u{cnt[0]}"] + ([f"u{cnt[0]}b"] if rng.random() < 0.3 else [])])
                 answers(r_, sc["upd"][-1][2])
+    if rng.random() < 0.3:
+        # finalize() trades too (close everything at the end): accepted and refused operations, answered from notify() when delivered
+        fo = ops()
+        if fo:
+            sc["fin"], sc["fin_notify"], sc["fin_fuel"] = fo, [], 100000
+            for x in fo:
+                if rng.random() < max(pn, 0.2):
+                    o2 = ops(2)
+                    if o2:
+                        sc["fin_notify"].append([x[2], o2])
     case = {"interval": interval, "istr": istr, "markets": markets, "prices": prices, "specs": specs, "script": sc, "rerun": rng.random() < 0.35}
     nbars_run = len(expected_index(max(markets, key=lambda m: len(m["times"]))["times"], step, resampled(istr)))
     if rng.random() < 0.3:
@@ -305,16 +324,17 @@ def run_impl(case):
     from demeter._typing import DemeterError
     rec = cl.Recorder()
     rec.initialized = False
-    a, ms, rec = cl.build([(f"m{i}", m["times"], m["open"], m["kind"], m.get("rows", 1), m.get("sparse", False)) for i, m in enumerate(case["markets"])], case["prices"], case["istr"], rec)
+    a, ms, rec = cl.build([(f"m{i}", m["times"], m["open"], m["kind"], m.get("rows", 1), m.get("sparse", False), is_strict(m)) for i, m in enumerate(case["markets"])], case["prices"], case["istr"], rec)
     sc = case["script"]
-    t_before, t_on, t_after, t_fire, t_open, t_notify, upd_by_row = {}, {}, {}, {}, {}, {}, {}
+    t_before, t_on, t_after, t_fire, t_open, t_notify, upd_by_row, t_fin_notify = {}, {}, {}, {}, {}, {}, {}, {}
     cur_sc = {"sc": sc}
 
     def load(script):
         """(re)fill the tables the hooks read: the same strategy object can be run again with another script"""
         cur_sc["sc"] = script
-        for d in (t_before, t_on, t_after, t_fire, t_open, t_notify, upd_by_row):
+        for d in (t_before, t_on, t_after, t_fire, t_open, t_notify, upd_by_row, t_fin_notify):
             d.clear()
+        t_fin_notify.update({tag: o for tag, o in script.get("fin_notify", [])})
         t_before.update({r: o for r, o in script["before"]})
         t_on.update({r: o for r, o in script["on"]})
         t_after.update({r: o for r, o in script["after"]})
@@ -413,11 +433,13 @@ def run_impl(case):
 
         def notify(self, action):
             ev(["notify", now(), action.comment, cl.sec(action.timestamp), [m.market_info for m in ms].index(action.market)])
-            do_ops("notify", t_notify.get((state["row"], action.comment), []))
+            do_ops("notify", t_fin_notify.get(action.comment, []) if state.get("fin") else t_notify.get((state["row"], action.comment), []))
 
         def finalize(self):
             ev(["finalize", now()])
             left.extend(ident[id(t)] for t in self.triggers)      # still installed when the loop has ended
+            state["fin"] = True
+            do_ops("finalize", cur_sc["sc"].get("fin", []))
 
     a.strategy = S()
     left = []
@@ -435,6 +457,7 @@ def run_impl(case):
     def go(script):
         """one Actuator.run() with the given script; what it did and what it left behind"""
         load(script)
+        state["fin"] = False
         rec.events = []
         rec.initialized = False
         left.clear()
@@ -460,6 +483,7 @@ def run_impl(case):
         o = {"events": rec.events, "err": err, "exc": exc, "left": list(left), "saved": saved,
              "actions": [[x.comment, cl.sec(x.timestamp), [m.market_info for m in ms].index(x.market)] for x in a.actions],
              "status_ts": [cl.sec(s.timestamp) for s in a.account_status],
+             "undelivered": [[x.comment, cl.sec(x.timestamp), [m.market_info for m in ms].index(x.market)] for x in a._currents.actions],
              "installed_after": len(a.strategy.triggers)}
         if err is None:
             df = a.account_status_df
@@ -483,6 +507,11 @@ def run_impl(case):
                 ["raised", second["err"], (second["exc"] or "")[-100:]] if second["err"] is not None else
                 next(([i, x, y] for i, (x, y) in enumerate(zip(ev2 + [None] * len(first), first + [None] * len(ev2))) if x != y), "length"))
     return obs
+
+
+def is_strict(m):
+    """does the market's set_market_status raise KeyError on a bar its frame has no row for (the real UniLpMarket does)"""
+    return bool(m.get("strict", m["kind"] == "uni"))
 
 
 def has_boom(script):
@@ -514,7 +543,7 @@ def strip_booms(script):
 
 
 # ------------------------------------------------------------------------------------------ the property, stated on the observed trace
-PHASE_OF_HOOK = {"init": 2, "before": 5, "fire": 6, "open": 7, "on": 9, "after": 13, "notify": 15}
+PHASE_OF_HOOK = {"init": 2, "before": 5, "fire": 6, "open": 7, "on": 9, "after": 13, "notify": 15, "finalize": 17}
 
 
 def phase(e):
@@ -564,7 +593,11 @@ def first_in_bin(times, ts, step, resample):
 
 def oracle(ctx, case, obs, rep):
     """C05 on the implementation's own trace.  Only for runs that ended normally."""
-    ev = [e for e in obs["events"]]
+    full = [e for e in obs["events"]]
+    # the loop ends with the finalize() call; what finalize() does and the deliveries after it are judged separately (`tail`)
+    kfin = next((i for i, e in enumerate(full) if e[0] == "finalize"), None)
+    ev = full if kfin is None else full[:kfin + 1]
+    tail = [] if kfin is None else full[kfin + 1:]
     step = 60 * case["interval"]
     resample = resampled(case["istr"])
     nm = len(case["markets"])
@@ -607,16 +640,31 @@ def oracle(ctx, case, obs, rep):
           f"that does not contain the strategy's own write")
     # every accepted operation / update record yields one action stamped with its bar, delivered exactly once at the end of that bar
     recorded = []
-    for e in ev:
+    for e in full:
         if e[0] == "ok" or (e[0] == "free" and e[5]):
             recorded.append([e[4], e[1], e[3]])
         elif e[0] == "uact":
             recorded.append([e[3], e[1], e[2]])
-    notified = [[e[2], e[3], e[4]] for e in ev if e[0] == "notify"]
+    notified = [[e[2], e[3], e[4]] for e in full if e[0] == "notify"]
     if notified != recorded:
         lost = [x for x in recorded if x not in notified]
-        V("Actuator.notify:not-exactly-once", f"notified actions {notified[:5]}… differ from recorded ones {recorded[:5]}… (never delivered: {lost[:4]})")
-    late = [e for e in ev if e[0] == "notify" and e[1] != e[3]]
+        from_fin = [x for x in lost if any(t[0] in ("ok", "free") and t[2] == "finalize" and t[4] == x[0] for t in tail)]
+        if from_fin and notified == recorded[:len(notified)] and all(x in from_fin or any(t[2] == "notify" and t[4] == x[0] for t in tail if t[0] in ("ok", "free")) for x in lost):
+            V("Actuator.notify:finalize-operation-never-delivered", f"operations accepted from finalize() are in Actuator.actions but were never handed to notify(): {from_fin[:4]} "
+              f"(left in _currents.actions: {obs.get('undelivered', [])[:4]})")
+        else:
+            V("Actuator.notify:not-exactly-once", f"notified actions {notified[:5]}… differ from recorded ones {recorded[:5]}… (never delivered: {lost[:4]})")
+    if obs.get("undelivered"):
+        V("Actuator._currents.actions:left-after-run", f"records left undelivered in _currents.actions after the run: {obs['undelivered'][:4]}")
+    # what finalize() does happens after the last bar: stamped with it (the clock still shows it), only operation outcomes and deliveries follow the call
+    for e in tail:
+        if not ((e[0] in ("ok", "rej", "free") and e[2] in ("finalize", "notify")) or e[0] == "notify"):
+            V("Actuator.run:call-after-finalize", f"{e} follows finalize()")
+            break
+        if e[1] != bars[-1] or (e[0] == "notify" and e[3] != bars[-1]):
+            V("Actuator.run:finalize-operation-stamp", f"{e} after finalize() is not stamped with the last bar {bars[-1]}")
+            break
+    late = [e for e in full if e[0] == "notify" and e[1] != e[3]]
     if late:
         src = [x for x in ev if x[0] in ("ok", "free") and x[4] == late[0][2]]
         V("Actuator.notify:late", f"the action {late[0][2]} stamped {late[0][3]} (issued from {src[0][2] if src else 'update()'}) was delivered to notify() in the bar "
@@ -646,10 +694,50 @@ def oracle(ctx, case, obs, rep):
         elif e[0] == "open" and not openf.get((e[1], e[2])):
             V("Actuator.run:open-callback-on-closed-market", f"{e}")
     if ev[-1][0] != "finalize":
-        V("Actuator.run:finalize", "finalize() is not the last call")
+        V("Actuator.run:finalize", "finalize() is not called after the last bar")
     if obs.get("rerun") is not None:
         V("Actuator.run:second-run-differs", f"the same Actuator and strategy run a second time on the same data: first difference (index, second run, first run) "
                                              f"{str(obs['rerun'])[:300]}")
+
+
+def first_strict_failure(case):
+    """the first bar (None: none) on which a strict market has no row, from the case alone"""
+    step = 60 * case["interval"]
+    resample = resampled(case["istr"])
+    longest = max(case["markets"], key=lambda m: len(set(m["times"])))
+    bars = expected_index(sorted(set(longest["times"])), step, resample)
+    idx = [set(market_index(m, step, resample)) if is_strict(m) else None for m in case["markets"]]
+    for t in bars:
+        for i, s_ in enumerate(idx):
+            if s_ is not None and t not in s_:
+                return bars, t, i
+    return bars, None, None
+
+
+def oracle_strict(ctx, case, obs, rep):
+    """a strict market (UniLpMarket, AaveV3Market, SqueethMarket, GmxMarket, GmxV2Market behave so) without a row on a bar: the run cannot go
+    on as if the market were closed — it ends with KeyError at that bar, before the bar's before_bar, with the rows of the bars before it"""
+    V = lambda key, what: ctx.violate(key, what, rep)  # noqa: E731
+    bars, tb, mi = first_strict_failure(case)
+    ev = obs["events"]
+    if tb is None:
+        return
+    if obs["err"] is None:
+        V("Actuator.run:strict-market-without-row-went-on", f"market {mi} looks its row up unguarded and has none at {tb}, yet the run ended normally")
+        return
+    if obs["err"] != "KeyError":
+        return          # ended earlier for another reason (price frame, trigger): the model comparison judges it
+    befores = [e[1] for e in ev if e[0] == "before"]
+    if befores and befores[-1] >= tb:
+        V("Actuator.run:bar-ran-although-strict-market-has-no-row", f"before_bar ran at {befores[-1]}; market {mi} has no row at {tb}")
+    if obs["status_ts"] != bars[:len(obs["status_ts"])] or (obs["status_ts"] and obs["status_ts"][-1] >= tb):
+        V("Actuator.account_status:after-strict-failure", f"account rows {obs['status_ts'][-3:]} after the run ended at {tb}")
+    # the markets registered before the failing one were refreshed on that bar, the failing one and those behind it were not — if the run got
+    # that far (every bar before it has its account row) and the price frame has a row for the bar (the price row is looked up first)
+    reached = obs["status_ts"] == bars[:bars.index(tb)] and tb in set(expected_index(case["prices"], 60 * case["interval"], resampled(case["istr"])))
+    last_sets = [e[2] for e in ev if e[0] == "set" and e[1] == tb and e[3] == (0 if tb == bars[0] else 1)]
+    if reached and last_sets != list(range(mi)):
+        V("Actuator.run:refresh-at-strict-failure", f"markets refreshed on the failing bar {tb}: {last_sets}, expected {list(range(mi))}")
 
 
 def recorded_of(ev):
@@ -718,7 +806,7 @@ def model_request(case, obs=None):
     extra = {}
     if obs is not None and "second" in obs:
         extra["then"] = strip_booms(case["script"])
-    return {**extra, "fn": "run_g", "markets": [{"idx": ints([t for t in m["times"] for _ in range(m.get("rows", 1))]), "open": m["open"], "sparse": bool(m.get("sparse", False))} for m in case["markets"]],
+    return {**extra, "fn": "run_g", "markets": [{"idx": ints([t for t in m["times"] for _ in range(m.get("rows", 1))]), "open": m["open"], "sparse": bool(m.get("sparse", False)), "strict": is_strict(m)} for m in case["markets"]],
             "prices": ints(case["prices"]),
             "delta": str(60 * case["interval"]), "resample": resampled(case["istr"]), "specs": specs, "script": case["script"]}
 
@@ -727,10 +815,12 @@ def check_case(ctx: Ctx, case, reqs=None):
     obs = run_impl(case)
     rep = case
     nm = len(case["markets"])
-    kinds = "+".join(sorted(m["kind"] + ("~sparse" if m.get("sparse") else "") for m in case["markets"]))
+    kinds = "+".join(sorted(m["kind"] + ("~sparse" if m.get("sparse") else "") + ("!" if is_strict(m) and m["kind"] != "uni" else "") for m in case["markets"]))
     ev = obs["events"]
     boom = has_boom(case["script"])
     dynamic = any(st[0] in ("tadd", "tdel") for body in bodies(case["script"]) for st in body)
+    if not boom:
+        oracle_strict(ctx, case, obs, rep)
     if obs["err"] is None:
         oracle(ctx, case, obs, rep)
     elif boom:
@@ -785,6 +875,8 @@ def compare(ctx, rep, obs, ans):
         return
     if ans["actions"] != obs["actions"]:
         ctx.disagree(f"action lists differ (outcome {obs['err']})", rep)
+    if "undelivered" in ans and ans["undelivered"] != obs.get("undelivered"):
+        ctx.disagree(f"_currents.actions after the run: impl {obs.get('undelivered')} model {ans['undelivered']}", rep)
     if [r[0] for r in ans["rows"]] != obs["status_ts"] or [r[1] for r in ans["rows"]] != [e[2] for e in it if e[0] == "row"]:
         ctx.disagree(f"account rows differ (outcome {obs['err']})", rep)
     if obs["err"] is None:
@@ -844,6 +936,72 @@ def real_market_resample(ctx: Ctx):
                         f"{name}._resample('5min') raises {type(e).__name__} ({str(e)[:120]}): a run with interval != 1min cannot start", {"real_resample": name})
 
 
+def real_market_strictness(ctx: Ctx):
+    """which real market classes raise KeyError from set_market_status on a bar their frame has no row for: observed on the objects, compared
+    with the flags the model reads from the source (`Gen.coreStrictStatus…`, answered by the driver)"""
+    cl.setup()
+    import os
+    from demeter import MarketInfo, TokenInfo, MarketTypeEnum
+    from demeter.broker import MarketStatus
+    from demeter.aave import AaveV3Market
+    from demeter.gmx import GmxMarket
+    from demeter.gmx.market2 import GmxV2Market
+    from demeter.gmx._typing2 import GmxV2Pool
+    from demeter.squeeth import SqueethMarket
+    from demeter.uniswap import UniLpMarket, UniV3Pool
+    from demeter.deribit import DeribitOptionMarket
+    import c05_real
+    weth, usdc = TokenInfo("weth", 18), TokenInfo("usdc", 6)
+    times = [8 * 3600 + 60 * i for i in range(4)]
+    index = pd.DatetimeIndex([cl.at(t) for t in times])
+    missing = pd.Timestamp(cl.at(8 * 3600 + 7200))
+
+    def fr():
+        return pd.DataFrame({"v": [float(i) for i in range(len(times))]}, index=index)
+    risk = os.path.join(cl_repo(), "tests", "aave_risk_parameters", "demo.csv")
+
+    def uni():
+        m = UniLpMarket(MarketInfo("u"), UniV3Pool(usdc, weth, 0.05, usdc))
+        m.data = c05_real.pool_frame(m, index, 200000)
+        return m
+
+    def deribit():
+        m = DeribitOptionMarket(MarketInfo("o", MarketTypeEnum.deribit_option), DeribitOptionMarket.ETH)
+        m.data = c05_real.option_frame("2023-09-22", [6, 7], [("ETH-29SEP23-3000-C", 3000, pd.Timestamp("2023-09-29 08:00:00"))])
+        return m
+    makers = {
+        "UniLpMarket": uni,
+        "AaveV3Market": lambda: AaveV3Market(MarketInfo("aave"), risk, [weth], data=fr()),
+        "GmxMarket": lambda: GmxMarket(MarketInfo("gmx"), [weth], data=fr()),
+        "GmxV2Market": lambda: GmxV2Market(MarketInfo("gmx2"), GmxV2Pool(weth, usdc, weth), data=fr()),
+        "SqueethMarket": lambda: SqueethMarket(MarketInfo("sq"), None, data=fr()),
+        "DeribitOptionMarket": deribit,
+    }
+    seen = {}
+    for name, mk in makers.items():
+        try:
+            m = mk()
+        except Exception as e:  # noqa: BLE001
+            ctx.note(f"strictness_{name}", f"could not construct: {type(e).__name__}")
+            continue
+        ts = pd.Timestamp("2023-09-22 09:00:00") if name == "DeribitOptionMarket" else missing
+        try:
+            m.set_market_status(MarketStatus(ts, None), None)
+            seen[name] = False
+        except KeyError:
+            seen[name] = True
+        except Exception as e:  # noqa: BLE001
+            ctx.note(f"strictness_{name}", f"set_market_status on a bar without a row raised {type(e).__name__}")
+            continue
+        ctx.case(f"real-strictness:{name}:{'KeyError' if seen[name] else 'closed'}")
+    if ctx.driver_ok and seen:
+        flags = driver_json([{"fn": "strict_flags"}], exe="driver_core")[0]
+        for name, got in seen.items():
+            if flags.get(name) != got:
+                ctx.disagree(f"{name}.set_market_status on a bar without a row: {'KeyError' if got else 'market closed'} observed, the flag read from the "
+                             f"source says strict={flags.get(name)}", {"real_strictness": name})
+
+
 def cl_repo():
     import common
     return common.REPO
@@ -872,6 +1030,11 @@ def fixed_cases():
                 "script": dict(empty, on=[[2, [[0, True, "t1", True]]], [5, [[1, True, "t4", False]]]], upd=[[3, 1, ["u1"]]],
                                notify=[[2, "t1", [[1, True, "t2", True], [0, False, "t2x", True]]], [2, "t2", [[0, True, "t3", False]]],
                                        [5, "t4", [[0, True, "t5", True]]], [3, "u1", [[1, True, "t6", True]]]])})
+    # finalize() trades: an accepted, a refused and an ungated operation after the last bar; notify() answers the delivery of the first
+    ms = [{"kind": "minutely", "times": short, "open": False}, {"kind": "minutely", "times": short[:3], "open": False}]
+    out.append({"interval": 1, "istr": "1min", "markets": ms, "prices": short, "specs": [], "rerun": True,
+                "script": dict(empty, on=[[1, [[0, True, "o1", True]]]], fin=[[0, True, "fin1", True], [0, False, "fin2", True], [1, True, "fin3", True], [1, True, "fin4", False]],
+                               fin_notify=[["fin1", [[0, True, "fin5", True]]]], fin_fuel=1000)})
     # a hook raises: every hook, on the first bar / in the middle / on the last bar, every class; afterwards the same Actuator runs again
     import copy
     whole = {"k": "range", "kw": "{}", "s": short[0], "e": short[-1] + 60}
@@ -914,6 +1077,8 @@ def fixed_cases():
 def run(ctx: Ctx):
     cl.setup()
     real_market_resample(ctx)
+    real_market_strictness(ctx)
+    c05_real.run_stream(ctx)        # real UniLpMarket + SqueethMarket / DeribitOptionMarket under a real Actuator (oracle only)
     n = ctx.scale(260, 6000)
     reqs = []
     for case in fixed_cases():
@@ -932,6 +1097,8 @@ def replay(ctx: Ctx, case) -> bool:
     if "real_resample" in case:
         real_market_resample(sub)
         sub.violations = [v for v in sub.violations if v["replay"].get("real_resample") == case["real_resample"]]
+    elif "real" in case:
+        c05_real.check_real(sub, case)
     else:
         check_case(sub, case, None)
     for v in sub.violations:
